@@ -215,7 +215,8 @@ func (e *Env) ServeUpstream(cs *ClientSpec, onConn func(u *UpConn)) (func(), err
 					raw.Close()
 					return
 				}
-				onConn(&UpConn{Addr: req.Addr, Payload: req.Payload, Username: req.Username, Conn: c, Raw: raw})
+				// the payload may alias the connection's write buffer: copy it before anything is written
+				onConn(&UpConn{Addr: req.Addr, Payload: append([]byte(nil), req.Payload...), Username: req.Username, Conn: c, Raw: raw})
 			})
 		}
 	})
